@@ -50,7 +50,9 @@ LEVEL_NOTE = ("Model = RxModel/Comb.lean + RxModel/CombHO.lean (merge_all_: grou
 "(source, time) only; runs in which the outer goes on delivering after the result ended are oracle-only: a source inside its own subscribe cannot be stopped, the flat "
 "machine closes it at the terminal). The same observable object delivered / listed twice (rx.merge(xs, ys, xs)) gets one trace id per subscription; rx.merge must merge every "
 "listed source. A few cases per run use max_concurrent 257..300 with more overlapping inners than that. An exception escaping into the scheduler is recorded as an output "
-"('X'), never a harness error. "
+"('X'), never a harness error. flat_map / flat_map_indexed mappers also return plain ITERABLES (list, tuple, a generator failing part-way, an iterator logging its pulls): the "
+"`from_` call inside _flatmap.py is tapped so that the resulting inner is a logged source; oracle: exactly the elements up to the failure, then its error, and no pull before the "
+"inner is subscribed. "
 "Threads are C43.")
 
 OPS = ["merge_all", "merge", "merge", "flat_map", "flat_map_indexed", "concat_map", "rx_merge", "merge"]
@@ -84,6 +86,14 @@ def cases(rng, tier):
         c = cc.gen_ho_case(rng, op, p_timer=0.3, p_same=0.5 if op == "rx_merge" else 0.2)
         if op == "merge":
             c["maxc"] = rng.choice([1, 1, 2, 2, 3, 4])
+        if op in ("flat_map", "flat_map_indexed") and rng.random() < 0.4:
+            # mappers returning plain ITERABLES (list, tuple, a generator failing part-way, an iterator logging its pulls)
+            for k_ in list(c["inners"]):
+                if "same_as" not in c["inners"][k_] and not any(s2.get("same_as") == int(k_) for s2 in c["inners"].values()) and rng.random() < 0.6:
+                    nv = rng.randint(0, 3)
+                    kind_ = rng.choice(["list", "tuple", "gen", "gen", "iter", "iter"])
+                    c["inners"][k_] = {"mode": "iter", "kind": kind_, "vals": [fw.enc((int(k_), j_, rng.choice(cc.FALSY))) for j_ in range(nv)],
+                                       "fail_after": (rng.randint(0, nv) if kind_ in ("gen", "iter") and rng.random() < 0.6 else None)}
         if op == "rx_merge":
             c["outer"]["msgs"] = [m for m in c["outer"]["msgs"] if m[1] == "N"]
             c["outer"]["mode"] = "cold"
@@ -216,6 +226,9 @@ def oracle(case, out):
     v = cc.timer_delivery_failure(case["inners"].values(), log)
     if v:
         return v
+    v = cc.iter_delivery_failure(case["inners"], log)
+    if v:
+        return v
     if case["op"] == "flat_map_indexed" and out["idx"] != list(range(len(out["idx"]))):
         return f"flat_map_indexed passed indices {out['idx']}"
     return None
@@ -240,6 +253,7 @@ def bucket(case, out):
     yield "simultaneous=" + str(len(ts) != len(set(ts)))
     yield "dispose=" + str(case.get("dispose") is not None)
     yield "mapper_raises=" + str("raise_on" in case)
+    yield "callable_form=" + case.get("callable_form", "def")
     if case.get("feedback"):
         yield "feedback_reentrant_outer_emission"
     if case.get("outer", {}).get("mode") == "sync":
